@@ -1106,3 +1106,96 @@ def change_flag(check: Check, repo: Repo, rule: str = "CHANGE-FLAG") -> None:
         check.ob(rule, flag, "is_schema_changed = True only after a collecting arm", path is None and bool(collect),
                  f"{len(arm_stmts)} collecting statements; every path to the flag passes one" if path is None and collect else
                  "a definition that matches no collecting arm still sets the flag: " + (cfg.describe_path(path) if path else "no collecting arm found"))
+
+
+def mapper_new_nodes_only(check: Check, repo: Repo, rule: str = "EXTEND-BUILD-AGREE") -> None:
+    """Clause of EXTEND-BUILD-AGREE: a mapper builds additions from the *new* extension nodes only."""
+    mod = repo.mod("utilities.extend_schema")
+    n = 0
+    for name in ("object_mapper", "interface_mapper", "enum_mapper", "union_mapper", "input_object_mapper"):
+        mp = _nested(mod.tree, name)
+        if mp is None:
+            continue
+        local = {
+            s.targets[0].id: s.value for s in ast.walk(mp)
+            if isinstance(s, ast.Assign) and len(s.targets) == 1 and isinstance(s.targets[0], ast.Name)
+        }
+        for c in ast.walk(mp):
+            if not (isinstance(c, ast.Call) and call_name(c).startswith("build_") and c.args):
+                continue
+            arg = c.args[0]
+            src = local.get(arg.id, arg) if isinstance(arg, ast.Name) else arg
+            from_config = any(
+                isinstance(x, ast.Subscript) and unparse(x.value) == "config"
+                and not (isinstance(x.slice, ast.Constant) and x.slice.value == "name")  # the lookup key
+                for x in ast.walk(src))
+            from_new = "type_extensions" in unparse(src)
+            n += 1
+            check.ob(rule, c, f"{name}: {call_name(c)}({unparse(arg)}) builds from the new extension nodes", from_new and not from_config,
+                     f"{unparse(arg)} = {unparse(src)[:70]}" if from_new and not from_config else
+                     f"`{unparse(arg)}` = `{unparse(src)[:80]}` includes nodes already applied to the existing type (config[...]): "
+                     "their `implements` clauses / members are added a second time")
+    if n < 5:
+        raise AnalysisError("extend_schema mappers: build_* calls not found")
+
+
+def args_oneline(check: Check, repo: Repo, rule: str = "ARGS-ONELINE") -> None:
+    import itertools
+
+    from sa.tables import Evaluator, NotStatic, Rec
+
+    check.rule(
+        rule,
+        "print_args takes the one-line form (the return that joins the arguments with ', ' and never calls "
+        "print_description) exactly when *no* argument has a description - its condition is folded for all "
+        "assignments of {no description, description} to two arguments: only (none, none) may select it; a "
+        "condition that also selects it when just one argument lacks a description drops the descriptions of "
+        "the others from the printed schema",
+    )
+    fn = repo.func("utilities.print_schema", "print_args")
+    mod = repo.mod("utilities.print_schema")
+    cands = [s for s in walk_body(fn) if isinstance(s, ast.If) and any(
+        isinstance(r, ast.Return) and r.value is not None and '", "' in unparse(r.value).replace("'", '"') and "print_description" not in unparse(r.value)
+        for r in s.body)]
+    if len(cands) != 1:
+        raise AnalysisError("print_args: the one-line branch was not found")
+    test = cands[0].test
+    bad = []
+    for d1, d2 in itertools.product((None, "text"), repeat=2):
+        args = {"a": Rec(description=d1), "b": Rec(description=d2)}
+        try:
+            got = bool(Evaluator(repo, mod, {"args": args}).eval(test))
+        except NotStatic as ex:
+            raise AnalysisError(f"print_args: condition no longer foldable: {ex}") from ex
+        want = d1 is None and d2 is None
+        if got != want:
+            bad.append(((d1, d2), got))
+    check.ob(rule, cands[0], f"print_args: one-line form iff no description (`{unparse(test)[:60]}`)", not bad,
+             "4 of 4 cells" if not bad else "; ".join(f"descriptions {c} -> one-line={g}" for c, g in bad))
+
+
+def root_names_agree(check: Check, repo: Repo, rule: str = "ROOT-NAMES-AGREE") -> None:
+    check.rule(
+        rule,
+        "printer and builder agree on the naming convention for root types: build_ast_schema takes *any* type "
+        "named Query / Mutation / Subscription as a root when no schema definition is present, so "
+        "has_default_root_operation_types may omit the schema definition only if each root is identical to "
+        "schema.get_type(<that name>) - a kind-agnostic lookup of the same three names (an enum called "
+        "Subscription next to no subscription root needs an explicit schema block)",
+    )
+    fn = repo.func("utilities.print_schema", "has_default_root_operation_types")
+    cmps = [c for c in walk_body(fn) if isinstance(c, ast.Compare) and len(c.ops) == 1 and isinstance(c.ops[0], ast.Is)]
+    names = set()
+    for c in cmps:
+        r = c.comparators[0]
+        ok = isinstance(r, ast.Call) and unparse(r.func) == "schema.get_type" and len(r.args) == 1 and isinstance(r.args[0], ast.Constant)
+        if ok:
+            names.add(r.args[0].value)
+        check.ob(rule, c, f"has_default_root_operation_types: {unparse(c)[:70]}", ok,
+                 "compared with the type of that name, whatever its kind" if ok else
+                 f"`{unparse(r)[:60]}` is not schema.get_type(<name>): the printer's notion of 'default root' differs from the builder's")
+    b = repo.func("utilities.build_ast_schema", "build_ast_schema")
+    bnames = {c.comparators[0].value for c in walk_body(b) if isinstance(c, ast.Compare) and len(c.ops) == 1 and isinstance(c.ops[0], ast.Eq)
+              and isinstance(c.comparators[0], ast.Constant) and isinstance(c.comparators[0].value, str) and unparse(c.left) == "type_name"}
+    check.ob(rule, fn, "the same three names on both sides", names == bnames and len(names) == 3,
+             f"{sorted(names)}" if names == bnames else f"printer {sorted(names)} vs builder {sorted(bnames)}")
